@@ -727,6 +727,8 @@ Q_RULES = [
     Sub(r"\+\+(\w+_count_)\.data_", r"atomic_inc(self, &self->\1)", None),                 # atomic pre-increment / pre-decrement
     Sub(r"--(\w+_count_)\.data_", r"atomic_dec(self, &self->\1)", None),
     Sub(r"\b(\w+_count_)\.data_\.load\([^()]*\)", r"atomic_load_i64(self, &self->\1)", None),
+    Sub(r"\b(\w+_count_)\.data_\.store\(([^;]*?)(?:,\s*std::memory_order_\w+)?\);", r"atomic_store_i64(self, &self->\1, \2);", None),
+    Sub(r"\b(\w+_count_)\.data_\s*=\s*([^;=]+);", r"atomic_store_i64(self, &self->\1, \2);", None),
     Call0(r"\bwork_items_\.push", "wi_push(self, {0}, {1})"),
     Call0(r"\bwork_items_\.pop", "wi_pop(self, &{0}, {1})"),
     Members(["parameters_"], optional=["parameters_"]),
